@@ -194,6 +194,13 @@ class PyEnv:
     def old(self):
         return PyEnv(self._before, self._before, {})
 
+    @property
+    def cur(self):
+        return PyEnv(self._after, self._before, {})
+
+    def obj(self, ref):
+        return ref
+
 
 def replay_contract(con, repo_root, model, meta, failed_group, node_params):
     """-> dict(reproduced: bool|None, detail...)"""
@@ -243,7 +250,7 @@ def replay_contract(con, repo_root, model, meta, failed_group, node_params):
         env = PyEnv(after, before, {'result': res})
         for name, fn, _ in con.ensures_:
             try:
-                ok = fn(env)
+                ok = con.py_readings.get(name, fn)(env)
                 if not ok:
                     report['violated'].append('post/' + name)
             except Exception as e:
